@@ -204,6 +204,9 @@ impl Prop for C14Prop {
         if rng.chance(1, 5) {
             l.knobs.insert("dirty".into(), rng.range(1, 40) as i64);
         }
+        if len <= 96 && rng.chance(1, 3) {
+            l.knobs.insert("all_caps".into(), 1);
+        }
         Scenario::Link(l)
     }
 
@@ -222,6 +225,18 @@ impl Prop for C14Prop {
         let mut violation = rep.mismatch.as_ref().map(|m| {
             Violation::oracle("C14.twin-divergence", format!("buffer {:?}: {}", l.buf, m))
         });
+        // short streams: every small capacity, so that an overflow lands on every byte of every token
+        if violation.is_none() && stream.len() <= 96 && l.knob("all_caps") == 1 {
+            for n in crate::fe::LADDER.iter().copied().filter(|n| *n <= 24) {
+                let k = BufKind::Arr(n);
+                let r: TwinReport = with_buf!(k, B => twin_run::<B>(stream, &l.ops, None));
+                st.bump("counters", "capacity-evaluations");
+                if let Some(m) = &r.mismatch {
+                    violation = Some(Violation::oracle("C14.twin-divergence", format!("buffer {:?}: {}", k, m)));
+                    break;
+                }
+            }
+        }
         for (_, k) in &rep.boundaries {
             st.add_dyn(format!("probe.boundary.{}", k), 1);
         }
